@@ -503,7 +503,9 @@ def run(ctx):
                     try:
                         const_stores.append((f_, x, ast.literal_eval(leaf_)))
                     except (ValueError, TypeError, SyntaxError):
-                        pass
+                        # a named module-level constant (`_API_VERSIONS_LEGACY = 0`)
+                        if isinstance(leaf_, ast.Name) and leaf_.id in f_.module.constants and isinstance(f_.module.constants[leaf_.id], ast.Constant):
+                            const_stores.append((f_, x, f_.module.constants[leaf_.id].value))
     fallbacks = [v for _, _, v in const_stores if v is not None]
     need(fallbacks, "no constant fallback state stored in _api_versions")
     S = fallbacks[0]
@@ -627,12 +629,20 @@ def run(ctx):
                     idarg = kwarg(call, "correlation_id", 1)
                     ok = idarg is not None and norm(idarg) == ida.id
                     why = "request is encoded with id `%s` but sent under `%s`" % (norm(idarg) if idarg is not None else None, ida.id)
+                    if not ok and isinstance(idarg, ast.Name):
+                        # two names for one value: the id sent and the id encoded come from the same single definition
+                        # (`requestId = _tmp` where `_tmp = self._next_id()` fed the encoder)
+                        o_sent = value_origins(cf, n.id, ida, params=f.params) or []
+                        o_enc = value_origins(cf, e.id, idarg, params=f.params) or []
+                        if len(o_sent) == 1 and len(o_enc) == 1 and o_sent[0][0] == o_enc[0][0] and o_sent[0][0] != cf.entry.id:
+                            ok = True
+                            idefs = []
                     if ok:
                         for d in idefs:
                             if d.id in cf.reach([e.id]) and n.id in cf.reach([d.id], avoid=[e.id]):
                                 ok = False
                                 why = "`%s` is re-assigned (line %d) after the request bytes were encoded and before the send" % (ida.id, d.lineno)
-                        if not any(cf.dominates([d.id], e.id) for d in idefs):
+                        if idefs and not any(cf.dominates([d.id], e.id) for d in idefs):
                             ok = False
                             why = "id not assigned before the encode"
                 r.check(ok, "%s#send(%s,%s)" % (f.qname, ida.id, rqa.id), why, where(f, c),
